@@ -26,6 +26,7 @@ type zzProxy struct {
 	bodySeen  []byte
 	header    http.Header
 	fail      error
+	onEmpty   error // what the engine answers for an empty candidate list (nothing written)
 	writes    func(w http.ResponseWriter)
 }
 
@@ -39,6 +40,9 @@ func (p *zzProxy) ProxyRequestToEndpoints(ctx context.Context, w http.ResponseWr
 	p.header = r.Header
 	if r.Body != nil {
 		p.bodySeen, _ = io.ReadAll(r.Body)
+	}
+	if len(endpoints) == 0 && p.onEmpty != nil {
+		return p.onEmpty
 	}
 	if p.writes != nil {
 		p.writes(w)
